@@ -229,4 +229,21 @@ no path occurs twice, parents are directories and come first -/
 def WF (t : List CEnt) : Bool :=
   t.all (fun c => c.cpath.all goodName) && decide (t.map (·.cpath)).Nodup && parentsFirst [] t
 
+/-- every emitted item that lies deeper than the export root has its directory
+emitted before it (what `os.mkdir` in the directory exporter and streaming
+extractors rely on) -/
+def itemsParentsFirst : List SItem → List SItem → Bool
+  | _, [] => true
+  | seen, i :: rest =>
+    (i.final.length ≤ 1 || seen.any (fun j => j.final == i.final.dropLast && j.ent.kind == .dir))
+      && itemsParentsFirst (i :: seen) rest
+
+/-- a "special path" test that is closed under going down the tree (true of
+every `startswith` test) -/
+def Mono (special : Str → Bool) : Prop := ∀ p q : Str, special p = true → p <+: q → special q = true
+
+/-- the prefix of member names that the root option induces -/
+def rootDir (root : Str) : Str :=
+  if root = [] then [] else if root.getLast? = some '/' then root else root ++ ['/']
+
 end BreezyVerif.C42
